@@ -77,6 +77,29 @@ func StakeSpecs() []TxSpec {
 	return out
 }
 
+// DelegationSpecs: the executor (dev account 0) names dev account 8 as the delegator contract; dev account 8 then delegates to
+// validators.  Once a delegation is locked, DistributeRewards splits the staking reward between the proposer and that address.
+func DelegatorSetupSpec() TxSpec {
+	m, _ := builtin.Params.ABI.MethodByName("set")
+	data, err := m.EncodeInput(thor.KeyDelegatorContractAddress, new(big.Int).SetBytes(DevAddr(8).Bytes()))
+	if err != nil {
+		hx.Fatal("abi: %v", err)
+	}
+	return TxSpec{Gas: 500_000, Coef: 255, Origin: 0, Delegator: -1, Nonce: 7100, MaxFee: "0", MaxPrio: "0",
+		Clauses: []ClauseSpec{{To: AddrHex(builtin.Params.Address), Value: "0", Data: hex.EncodeToString(data)}}}
+}
+
+func DelegationSpec(r *hx.Rand) TxSpec {
+	m, _ := builtin.Staker.ABI.MethodByName("addDelegation")
+	data, err := m.EncodeInput(DevAddr(r.Intn(10)), uint8(100+r.Intn(100)))
+	if err != nil {
+		hx.Fatal("abi: %v", err)
+	}
+	stake := new(big.Int).Mul(big.NewInt(int64(10000+r.Intn(100000))), new(big.Int).Exp(big.NewInt(10), big.NewInt(18), nil))
+	return TxSpec{Gas: 2_000_000, Coef: 255, Origin: 8, Delegator: -1, Nonce: r.Uint64(), MaxFee: "0", MaxPrio: "0",
+		Clauses: []ClauseSpec{{To: AddrHex(builtin.Staker.Address), Value: stake.String(), Data: hex.EncodeToString(data)}}}
+}
+
 func newPoSWorld(s *Setup) *World {
 	ch, fc := NewPoSChain(s.Galactica)
 	for i := 1; i <= 5; i++ {
